@@ -27,6 +27,7 @@ ASSUMPTIONS = ["monotonic conversions (C01) make checking min and max of an Arra
 TRUSTED = ["numpy.isnan"]
 
 OPS = {ast.Gt: ">", ast.GtE: ">=", ast.Lt: "<", ast.LtE: "<="}
+TOPS = {"cmp:Gt": ">", "cmp:GtE": ">=", "cmp:Lt": "<", "cmp:LtE": "<="}
 TABLE = {("min", True): ">", ("min", False): ">=", ("max", True): "<", ("max", False): "<="}
 
 
@@ -92,21 +93,22 @@ def r1_table(rep, ctx):
         if not raw:
             rep.bad("C12.R1", key, "the rejection is unconditional", node=c, fn=fn)
             continue
-        # the comparison with a limit that holds (or fails) on every path to the rejection
+        # the comparison with a limit that holds (or fails) on every path to the rejection (by terms:
+        # `value > limit`, operator.gt(value, limit) and TABLE['>'](value, limit) are the same comparison)
         cmp_fact = None
         for e, val in raw:
-            if isinstance(e, ast.Compare) and len(e.ops) == 1 and type(e.ops[0]) in OPS and _limit_kind(res.term(e.comparators[0])):
-                cmp_fact = (e, val)
+            te = res.term(e)
+            if te[0] == "op" and te[1] in TOPS and len(te[2]) == 2 and _limit_kind(te[2][1]):
+                cmp_fact = (e, te, val)
         if cmp_fact is None:
             rep.bad("C12.R1", key, "the rejection is not dominated by a comparison of the value with a limit", node=c, fn=fn)
             continue
-        cmp_, val = cmp_fact
+        cmp_, cmp_t, val = cmp_fact
         if val:
             rep.bad("C12.R1", key, "the rejection is reached when `%s` is true: this is not the NaN-rejecting form `not (value OP limit)` - a NaN value would be accepted" % ast.unparse(cmp_), node=c, fn=fn)
             continue
-        op = OPS[type(cmp_.ops[0])]
-        lim_t = res.term(cmp_.comparators[0])
-        val_t = res.term(cmp_.left)
+        op = TOPS[cmp_t[1]]
+        val_t, lim_t = cmp_t[2]
         kind = _limit_kind(lim_t)
         excl = None
         guarded = False
@@ -118,7 +120,8 @@ def r1_table(rep, ctx):
             if isinstance(e, ast.Compare) and len(e.ops) == 1 and isinstance(e.comparators[0], ast.Constant) and e.comparators[0].value is None and _limit_kind(res.term(e.left)) == kind:
                 if (isinstance(e.ops[0], ast.IsNot) and v) or (isinstance(e.ops[0], ast.Is) and not v):
                     guarded = True
-        rep_op = c.args[1].value if len(c.args) > 1 and isinstance(c.args[1], ast.Constant) else None
+        rep_op_t = res.term(c.args[1]) if len(c.args) > 1 else None
+        rep_op = rep_op_t[1] if rep_op_t and rep_op_t[0] == "const" else None
         rep_lim = res.term(c.args[2]) if len(c.args) > 2 else None
         rep_val = res.term(c.args[0]) if c.args else None
         why = []
@@ -172,9 +175,12 @@ def r2_convert_first(rep, ctx):
     val_i = fn.params.index("value")
     n = 0
     for c in own_nodes(fn.node):
-        if isinstance(c, ast.Compare) and len(c.ops) == 1 and type(c.ops[0]) in OPS and _limit_kind(res.term(c.comparators[0])):
+        if not isinstance(c, (ast.Compare, ast.Call)):
+            continue
+        ct = res.term(c)
+        if ct[0] == "op" and ct[1] in TOPS and len(ct[2]) == 2 and _limit_kind(ct[2][1]):
             n += 1
-            t = res.term(c.left)
+            t = ct[2][0]
             alts = alternatives(t)
             conv = [a for a in alts if a[0] == "call" and a[1] in (("field", "ConvertScalarValue"), ("field", "Convert"))]
             raw = [a for a in alts if a == ("param", val_i, "value")]
